@@ -108,6 +108,13 @@ def gen_descs(g, tier):
         lo = [g.q() for _ in range(R)]
         out.append(C.J(dict(op="trunc", idx=gen_idx(g, R), xs=g.mat(3, 1), u=C.gen_measure(g, R, 1), lo=lo,
                             hi=[l + g.qpos() for l in lo], mode=g.choice(["both", "lower", "upper"]))))
+    # slicing returns an INDEPENDENT object: updating the slice in place leaves the source unchanged and vice versa
+    # (also for R = 1 and a single index, where "nothing needs to be selected")
+    for (R, idx) in [(1, [0]), (1, [-1]), (2, [1]), (3, [0, 2]), (1, [0, 0])]:
+        for diag in (False, True):
+            D = g.randint(1, 2)
+            out.append(C.J(dict(op="alias", idx=idx, xs=g.mat(2, D), p=lin.gen_pdfv(g, R, D, diag=diag, ctor="Sigma"),
+                                q=lin.gen_pdfv(g, 1, D, diag=diag, ctor="Sigma"))))
     # update(idx, d): systematic address patterns -- gaps, descending, mixed negative, a full permutation, one component
     for (R, pos) in [(3, [0, 2]), (4, [3, 1]), (4, [-1, 0]), (3, [2, 0, 1]), (5, [4, 0, 2]), (3, [1]), (4, [1, 2]), (4, [-2, -4])]:
         d = gen_case(g, "update", R, g.randint(1, 2))
@@ -152,7 +159,7 @@ def coq_term(d):
     op, idx = d["op"], d["idx"]
     I = cints(idx)
     xs = cmat(d["xs"])
-    if op in ("approx", "trunc"):
+    if op in ("approx", "trunc", "alias"):
         return "dnat %d" % len(idx)
     if op in ("mul_u", "mul_f", "had"):
         u = coq_u(d["u"], d["cached"]); f = C.coq_factor(d["f"]) if d["f"]["kind"] != "pdf" else "(factor_of_measure %s)" % lin.coq_pdfv(d["f"])
@@ -326,6 +333,22 @@ def run_impl(d):
             ys = jarr(d["ys"]); ysl = jarr([d["ys"][i % f["R"]] for i in idx])
             a = np.take(np.asarray(c.integrate_log_conditional_y(p, y=ys)).reshape(-1), np.array(idx)); b = np.asarray(c.integrate_log_conditional_y(ps, y=ysl)).reshape(-1)
             same(fails, "integrate_log_conditional_y[%s]" % kind, a, b, kind="arr")
+        return ob, fails
+    if op == "alias":
+        ob.nat("n", len(idx))
+        names = ("Lambda", "Sigma", "mu", "nu", "ln_beta", "lnZ", "ln_det_Sigma")
+        snap = lambda o: {n: np.array(getattr(o, n)) for n in names}
+        def unchanged(a, b):
+            return all(a[n].shape == b[n].shape and np.array_equal(a[n], b[n]) for n in names)
+        z = jnp.array([0])
+        p1 = lin.impl_pdfv(d["p"]); s1 = p1.slice(ji); before = snap(p1)
+        s1.update(z, lin.impl_pdfv(d["q"]))
+        if not unchanged(before, snap(p1)):
+            fails.append(lin.fail(["C12"], "updating a slice in place changed the object it was sliced from", "pdf.slice/update"))
+        p2 = lin.impl_pdfv(d["p"]); s2 = p2.slice(ji); before = snap(s2)
+        p2.update(z, lin.impl_pdfv(d["q"]))
+        if not unchanged(before, snap(s2)):
+            fails.append(lin.fail(["C12"], "updating an object in place changed a slice taken from it earlier", "pdf.slice/update"))
         return ob, fails
     if op == "trunc":
         from gaussian_toolbox.experimental import truncated_measure as tmod
